@@ -232,3 +232,103 @@ func vStr1(name string) string {
 	vAssume(b >= 'a' && b <= 'z')
 	return string([]byte{b})
 }
+
+// ---- full-router helpers ----
+
+type vClient struct {
+	peer wamp.Peer // client end
+	id   wamp.ID
+}
+
+var vAllRoles = wamp.Dict{
+	"publisher":  wamp.Dict{"features": wamp.Dict{"publisher_exclusion": true, "publisher_identification": true, "payload_passthru_mode": true}},
+	"subscriber": wamp.Dict{"features": wamp.Dict{"publisher_identification": true, "pattern_based_subscription": true, "payload_passthru_mode": true}},
+	"caller":     wamp.Dict{"features": wamp.Dict{"call_canceling": true, "progressive_call_results": true, "progressive_call_invocations": true, "caller_identification": true, "call_timeout": true, "payload_passthru_mode": true}},
+	"callee":     wamp.Dict{"features": wamp.Dict{"call_canceling": true, "progressive_call_results": true, "progressive_call_invocations": true, "caller_identification": true, "call_timeout": true, "payload_passthru_mode": true, "shared_registration": true}},
+}
+
+var vAttachN int
+
+func vNewRouter(cfg *Config) *router {
+	r, err := NewRouter(cfg, vNopLog{})
+	vAssert("router-created", err == nil)
+	return r.(*router)
+}
+
+// vAttach joins a local client to realm; returns nil if the router refused.
+func vAttach(r *router, realm wamp.URI, helloDetails wamp.Dict, qsize int) *vClient {
+	c, rp := transport.LinkedPeersQSize(qsize)
+	if helloDetails == nil {
+		helloDetails = wamp.Dict{"roles": vAllRoles}
+	}
+	if _, ok := helloDetails["authid"]; !ok {
+		// a local client without authid gets a random hex authid from the
+		// router (formatting of a symbolic id); give it a concrete one
+		vAttachN++
+		helloDetails["authid"] = "user" + string(rune('0'+vAttachN))
+	}
+	go func() { c.Send() <- &wamp.Hello{Realm: realm, Details: helloDetails} }()
+	err := r.AttachClient(rp, nil)
+	if err != nil {
+		return nil
+	}
+	m := <-c.Recv()
+	w, ok := m.(*wamp.Welcome)
+	vAssert("welcome-after-attach", ok)
+	return &vClient{peer: c, id: w.ID}
+}
+
+func (c *vClient) send(m wamp.Message) { c.peer.Send() <- m }
+
+// drain returns all queued messages (after letting the router settle).
+func (c *vClient) drain() []wamp.Message {
+	vQuiesce()
+	var out []wamp.Message
+	for {
+		select {
+		case m, ok := <-c.peer.Recv():
+			if !ok {
+				return out
+			}
+			out = append(out, m)
+		default:
+			return out
+		}
+	}
+}
+
+// vAny returns a value of any dynamic type a deserializer or an in-process
+// client can put into a message (the "decode universe"), with symbolic content.
+const vAnyKinds = 14
+
+func vAny(name string) any {
+	switch vChoice(name+".type", vAnyKinds) {
+	case 0:
+		return nil
+	case 1:
+		return vBool(name)
+	case 2:
+		return vInt64(name)
+	case 3:
+		return vUint64(name)
+	case 4:
+		return vFloat64(name)
+	case 5:
+		return vString(name, 2)
+	case 6:
+		return vBytes(name, 1)
+	case 7:
+		return wamp.List{vInt64(name)}
+	case 8:
+		return wamp.Dict{"k": vInt64(name)}
+	case 9:
+		return int(vInt64(name))
+	case 10:
+		return wamp.ID(vUint64(name))
+	case 11:
+		return []any{vString(name, 1)}
+	case 12:
+		return map[string]any{"k": vBool(name)}
+	}
+	return wamp.URI(vString(name, 2))
+}
